@@ -202,6 +202,22 @@ func c20URL(c *vf.Ctx) {
 		u := c20MakeURL(scheme, host, kind, port, path)
 		c.Cur(sub, i, u.String())
 		c20CheckRoundTrip(c, sub, i, u, kind)
+		// the form older publishers advertise (path in a legacy "httpath" component, written with url.PathEscape): the
+		// client must arrive at the same path
+		if i%4 == 0 && path != "" && kind != "ip6" {
+			legacy := fmt.Sprintf("/%s/%s/tcp/%d/%s/httpath/%s", map[string]string{"ip4": "ip4", "dns": "dns"}[kind], host, 1+r.Intn(65535), scheme, url.PathEscape(path))
+			if kind == "ip4" || kind == "dns" {
+				if lm, err := multiaddr.NewMultiaddr(legacy); err == nil {
+					lu, err := maurl.ToURL(lm)
+					if err != nil {
+						c.Fail(sub, i, "legacy-httpath-tourl-error", err.Error(), map[string]any{"multiaddr": legacy})
+					} else if lu.Path != path || lu.Scheme != scheme {
+						c.Fail(sub, i, "legacy-httpath-differs", fmt.Sprintf("path %q scheme %s, advertised path %q scheme %s", lu.Path, lu.Scheme, path, scheme), map[string]any{"multiaddr": legacy})
+					}
+					c.Inc("legacy_httpath_addresses")
+				}
+			}
+		}
 		c.Eval(1)
 		pc := c20PathClass(u.Path)
 		c.Distinct(sub, scheme, kind, fmt.Sprint(port == ""), pc)
@@ -612,6 +628,35 @@ func c20Helpers(c *vf.Ctx) {
 					c.Fail(sub, i, "multiaddrsequal-multiplicity", "", wit())
 				}
 				c.Inc("multiplicity_checked")
+			}
+			// lists with repeated addresses over a small set: equal exactly when they are equal as multisets
+			if len(labs) >= 2 {
+				pool := []multiaddr.Multiaddr{labs[0].ma, labs[1].ma, labs[len(labs)-1].ma}
+				for t := 0; t < 4; t++ {
+					n := 2 + r.Intn(4)
+					var la, lb []multiaddr.Multiaddr
+					for k := 0; k < n; k++ {
+						la = append(la, pool[r.Intn(len(pool))])
+					}
+					if t%2 == 0 {
+						// every address of la twice over against every address of another choice twice over
+						la = append(la, la...)
+						for k := 0; k < n; k++ {
+							x := pool[r.Intn(len(pool))]
+							lb = append(lb, x, x)
+						}
+					} else {
+						for k := 0; k < n; k++ {
+							lb = append(lb, pool[r.Intn(len(pool))])
+						}
+					}
+					sa, sb := sortedCopy(maStrings(la)), sortedCopy(maStrings(lb))
+					same := strings.Join(sa, " ") == strings.Join(sb, " ")
+					if mautil.MultiaddrsEqual(append([]multiaddr.Multiaddr(nil), la...), append([]multiaddr.Multiaddr(nil), lb...)) != same {
+						c.Fail(sub, i, "multiaddrsequal-multiset:repeated-addresses", fmt.Sprintf("%v vs %v: want %v", sa, sb, same), wit())
+					}
+				}
+				c.Inc("repeated_address_lists_compared")
 			}
 		})
 		c.Eval(5)
